@@ -21,12 +21,13 @@ RULE = ("Hypothesis draws year 1..9999 (zero-padded to 4 digits) x month x refer
         "clamp class, leap class, year class, time?).")
 ASSUMPTIONS = ["process TZ=UTC", "the custom-format parser's 'current' day/month come from the (frozen) system clock, as the property states",
                "for an incomplete date followed by a clock time the period is asserted only when RETURN_TIME_AS_PERIOD asks for 'time'"]
-ESSENTIAL = ["clamp", "feb-leap", "year<1000", "form:year", "form:month_year", "form:full", "fmt:%Y", "with-time"]
+ESSENTIAL = ["clamp", "feb-leap", "year<1000", "form:year", "form:month_year", "form:full", "fmt:%Y", "with-time", "fmt-list:decoys"]
 
 MONTHS = ["January", "February", "March", "April", "May", "June", "July", "August", "September", "October",
           "November", "December"]
 PREFS = ["current", "first", "last"]
 ABS_FORMS = ["month_year", "mon_year", "mm_slash_yyyy", "yyyy_dash_mm", "year", "full_dmy", "full_mdy", "full_iso"]
+DECOYS = ["%Y", "%B %Y", "%m/%Y", "%d %B %Y", "%Y %H:%M", "%H:%M", "%d/%m/%Y", "%Y.%m.%d", "%b %Y", "%Y-%m", "%d.%m", "%B"]
 FMT_FORMS = ["%B %Y", "%m/%Y", "%Y", "%Y %H:%M", "%d %B %Y", "%b %Y", "%Y-%m", "%Y-%j", "%j %Y %H:%M"]
 
 
@@ -84,6 +85,17 @@ def check_case(case):
         else:
             tm = None
         via = "clock"  # the custom-format path reads the system clock
+        # decoy formats that do not match the string (judged by the standard library's strptime, not by the library under
+        # test) before and after the matching one: a format that is merely tried must leave nothing behind
+        def _nomatch(f):
+            try:
+                dt.datetime.strptime(s, f)
+            except ValueError:
+                return True
+            return False
+        before = [f for f in case.get("decoys_before") or [] if f != form and _nomatch(f)]
+        after = [f for f in case.get("decoys_after") or [] if f != form and _nomatch(f)]
+        formats = before + [form] + after
     if via == "base":
         settings["RELATIVE_BASE"] = ref
         clock.freeze(dt.datetime(2001, 2, 3, 4, 5, 6))
@@ -107,6 +119,8 @@ def check_case(case):
            "via:" + via, "pday:" + pday, "pmonth:" + pmonth]
     if formats:
         cls.append("fmt:" + form)
+        if len(formats) > 1:
+            cls.append("fmt-list:decoys")
     if tm is not None:
         cls.append("with-time")
     last = mdays(ey, em)
@@ -159,9 +173,13 @@ def cases(draw):
     tm = None
     if draw(st.integers(0, 2)) == 0:
         tm = [draw(gen.hours), draw(gen.minsec)]
-    return {"y": y, "m": m, "d": d, "ref": draw(refs()), "pday": draw(st.sampled_from(PREFS)),
-            "pmonth": draw(st.sampled_from(PREFS)), "form": form, "time": tm,
-            "time_as_period": draw(st.booleans()), "via": draw(st.sampled_from(["base", "clock"]))}
+    c = {"y": y, "m": m, "d": d, "ref": draw(refs()), "pday": draw(st.sampled_from(PREFS)),
+         "pmonth": draw(st.sampled_from(PREFS)), "form": form, "time": tm,
+         "time_as_period": draw(st.booleans()), "via": draw(st.sampled_from(["base", "clock"]))}
+    if form in FMT_FORMS and draw(st.integers(0, 1)):
+        c["decoys_before"] = draw(st.lists(st.sampled_from(DECOYS), min_size=0, max_size=2, unique=True))
+        c["decoys_after"] = draw(st.lists(st.sampled_from(DECOYS), min_size=0, max_size=1))
+    return c
 
 
 def _last_day_grid(ctx):
